@@ -311,7 +311,30 @@ def _crafted(case):
 
 
 def _crafted_isolated(case):
-    return rt.run_isolated(_crafted, case, hard_timeout=60)
+    """thread-free, so run in-process (a fork per case costs more than the case); the handlers
+    write events.yaml into the cwd, hence the private scratch directory"""
+    import os
+    import shutil
+    from pydcop.infrastructure import orchestrator as om
+    M = om.AgentsMgt
+    saved = (M.on_message, M._send_mgt_msg, M._cb_agent_registration, M._cb_computation_registration)
+    d = os.path.join(rt.WORK, "c%d" % os.getpid())
+    os.makedirs(d, exist_ok=True)
+    old = os.getcwd()
+    os.chdir(d)
+    try:
+        return _crafted(case)
+    except Exception as e:
+        import traceback
+        return {"error": type(e).__name__, "detail": str(e)[:300], "tb": traceback.format_exc()[-800:]}
+    finally:
+        M.on_message, M._send_mgt_msg, M._cb_agent_registration, M._cb_computation_registration = saved
+        os.chdir(old)
+        shutil.rmtree(d, ignore_errors=True)
+        try:
+            os.rmdir(rt.WORK)
+        except OSError:
+            pass
 
 
 def run_impl(case):
